@@ -97,6 +97,8 @@ def _run(pm: ProgramModel, ctx: Ctx, mb: ModelBuilder, cd: Codec) -> None:
         "int-ranges-wide": (AObj("Domain", range_list=[AObj("Range", min_value=20, max_value=100),
                                                        AObj("Range", min_value=250, max_value=1000)], element_list=[]), "30", "20"),
         "enumerated": (AObj("Domain", range_list=[], element_list=["low", "mid", "high"]), "mid", "low"),
+        "enumerated-one-element": (AObj("Domain", range_list=[], element_list=["only"]), "only", "only"),
+        "int-range-one-value": (AObj("Domain", range_list=[AObj("Range", min_value=4, max_value=4)], element_list=[]), "4", "4"),
         "enumerated-quoted": (AObj("Domain", range_list=[], element_list=['"eco,sport"', '"a b"', "x1"]), '"a b"', "x1"),
         "enumerated-numbers": (AObj("Domain", range_list=[], element_list=["1", "2", "30"]), "2", "1"),
     }
